@@ -10,6 +10,8 @@ CBMC_CHECKS = ['--bounds-check', '--pointer-check', '--pointer-overflow-check', 
 MEM_KB = int(os.environ.get('VERIF_CBMC_MEM_KB', str(14 * 1024 * 1024)))
 
 _extractors = {}
+import threading
+_xlock = threading.RLock()
 
 
 def extractor(cfg, src, specs_key, specs):
@@ -85,11 +87,16 @@ def auto_harness(o, ex):
 
 
 def build_tu(o, canary=False, witness=False):
+    with _xlock:
+        return _build_tu(o, canary, witness)
+
+
+def _build_tu(o, canary=False, witness=False):
     specs = {k: (spec_path(v) if isinstance(v, str) else v) for k, v in o.specs.items()}
     ex = extractor(o.cfg, o.src, sha(repr(sorted((k, str(v)) for k, v in specs.items()))), specs)
     needed = list(o.roots) + list(o.stop)
     ex.prefetch([c for c in needed])
-    gen_text, order = ex.compose(o.roots, stop=set(o.stop) | set(o.replace)) if o.roots else ('', [])
+    gen_text, order = ex.compose(o.roots, stop=set(o.stop) | set(o.replace), havoc=set(o.replace)) if o.roots else ('', [])
     tables = tabdump.generate(o.cfg, set(ex.ctx.need_globals) | set(o.globals), set(ex.ctx.need_enums) | set(o.enums), o.src)
     parts = ['/* obligation %s (%s) */' % (o.name, o.cfg)]
     for d in o.defines:
